@@ -131,9 +131,9 @@ inline ref::Pos mirrorFiles(const ref::Pos& p) { // only for positions without c
     return r;
 }
 
-enum Tmpl { M_BACKRANK = 0, M_SMOTHER1, M_SMOTHER2, M_SMOTHER3, M_PROMO_Q, M_PROMO_N, M_EP, M_DISCOVERED, M_DOUBLE, M_CASTLE_K, M_CASTLE_Q, M_LADDER, M_KQ, M_EP_DEFENCE, M_SEE_DEFENCE, M_NTMPL };
+enum Tmpl { M_BACKRANK = 0, M_SMOTHER1, M_SMOTHER2, M_SMOTHER3, M_PROMO_Q, M_PROMO_N, M_EP, M_DISCOVERED, M_DOUBLE, M_CASTLE_K, M_CASTLE_Q, M_LADDER, M_KQ, M_EP_DEFENCE, M_SEE_DEFENCE, M_PROMO_CAPTURE_LINE, M_NTMPL };
 inline const char* tmplName(int t) {
-    static const char* n[] = {"backrank", "smother1", "smother2", "smother3", "promo-q", "promo-n", "ep", "discovered", "double", "castle-k", "castle-q", "ladder", "kq", "ep-defence", "see-defence"};
+    static const char* n[] = {"backrank", "smother1", "smother2", "smother3", "promo-q", "promo-n", "ep", "discovered", "double", "castle-k", "castle-q", "ladder", "kq", "ep-defence", "see-defence", "promo-capture-line"};
     return n[t];
 }
 
@@ -219,6 +219,16 @@ inline ref::Pos buildTemplate(Choices& c, int t, bool& mirrorOk) {
         if (c.chance(1, 3)) put(p, c.flip() ? "a7" : "b6", 'p');
         if (c.chance(1, 3)) put(p, c.flip() ? "a2" : "b3", 'P');
         if (c.chance(1, 4)) { put(p, "c8", 'b'); put(p, "d7", 'p'); }
+        break;
+    }
+    case M_PROMO_CAPTURE_LINE: {
+        // mate in one by a capture-promotion whose check runs back through the square the pawn leaves: g7xh8=Q(B)+ with
+        // the king on the a1-h8 diagonal (or f7xg8=Q with the king on b3's diagonal ...); the straight promotion is no mate
+        put(p, "a1", 'k'); put(p, "c2", 'K'); put(p, "b4", 'N'); put(p, "g7", 'P');
+        put(p, "h8", "nbr"[c.pick(3)]);
+        if (c.chance(1, 3)) put(p, "g8", c.flip() ? 'n' : 'b');      // the push square may be blocked as well
+        if (c.chance(1, 3)) put(p, c.flip() ? "h5" : "e6", 'p');
+        noise(c, p, c.range(0, 2), "Pp", 2, 5);
         break;
     }
     case M_SEE_DEFENCE: {
